@@ -74,6 +74,17 @@ func (c *chanList) remove(id uint32) {
 	c.Unlock()
 }
 
+// removeChannel removes ch from the list, unless its id has already been
+// released and handed to another channel.
+func (c *chanList) removeChannel(ch *channel) {
+	id := ch.localId - c.offset
+	c.Lock()
+	if id < uint32(len(c.chans)) && c.chans[id] == ch {
+		c.chans[id] = nil
+	}
+	c.Unlock()
+}
+
 // dropAll forgets all channels it knows, returning them in a slice.
 func (c *chanList) dropAll() []*channel {
 	c.Lock()
